@@ -9,6 +9,7 @@ package c15
 
 import (
 	"bytes"
+	"context"
 	"encoding/json"
 	"fmt"
 	"io"
@@ -199,7 +200,12 @@ func Run(cfg hx.Config) error {
 type failSpec struct {
 	k, chunk int
 	with     bool
+	term     error
 }
+
+// the read errors a parser can meet: an arbitrary one, what net/http and the
+// decompressors report for a short body, and an expired context
+var failTerms = []error{errInjected, io.ErrUnexpectedEOF, errInjected, context.DeadlineExceeded}
 
 // sweepFeed does all damage to one feed and writes its protocol lines.
 func sweepFeed(r *hx.Run, f *feed, rnd *hx.Rand, cfg hx.Config) {
@@ -248,12 +254,12 @@ func sweepFeed(r *hx.Run, f *feed, rnd *hx.Rand, cfg hx.Config) {
 	var specs []failSpec
 	chunks := []int{1, 7, 64, 512, 4096, 0}
 	for k := 0; k <= n; k++ {
-		specs = append(specs, failSpec{k, chunks[rnd.Intn(len(chunks))], rnd.Chance(1, 2)})
+		specs = append(specs, failSpec{k, chunks[rnd.Intn(len(chunks))], rnd.Chance(1, 2), failTerms[rnd.Intn(len(failTerms))]})
 	}
 	fails := parMap(len(specs), func(i int) result {
 		s := specs[i]
 		b := rewrap(f.plain[:s.k])
-		return f.runReader(func() io.Reader { return &failReader{b: b, chunk: s.chunk, with: s.with, term: errInjected} })
+		return f.runReader(func() io.Reader { return &failReader{b: b, chunk: s.chunk, with: s.with, term: s.term} })
 	})
 	for i, s := range specs {
 		if r.Stop() {
